@@ -98,7 +98,8 @@ class Check:
                 else:
                     viol.append(r)
             elif r['status'] == 'undecided':
-                undec.append(r)
+                if r.get('required', True): undec.append(r)
+                else: r['status'] = 'ceiling-not-reached'
         for e, r in known_hit:
             key = (e['indicator'], e['family'], e['kind'])
         seen = set()
